@@ -25,10 +25,12 @@ func (h *Handler6) StartHunt(addr packet.Addr) (packet.HuntStage, error) {
 	}
 	h.Lock()
 	if h.huntList.Index(addr.MAC) != -1 {
+		verifEmit("ndp.start", addr, false)
 		h.Unlock()
 		return packet.StageHunt, nil
 	}
 	h.huntList.Add(addr)
+	verifEmit("ndp.start", addr, true)
 	h.Unlock()
 
 	go h.spoofLoop(addr)
@@ -45,6 +47,7 @@ func (h *Handler6) StopHunt(addr packet.Addr) (packet.HuntStage, error) {
 		return packet.StageNoChange, nil
 	}
 	h.Lock()
+	verifStop(h, addr)
 	h.huntList.Del(addr)
 	h.Unlock()
 	return packet.StageNormal, nil
@@ -57,6 +60,8 @@ func (h *Handler6) spoofLoop(dstAddr packet.Addr) {
 	rand.Seed(time.Now().UnixNano())
 	startTime := time.Now()
 	nTimes := 0
+	lid := verifLoopStart(dstAddr)
+	defer verifLoopDone(lid)
 
 	// if no IP, then use unicast Ether address and multicast IP to get packet to destination
 	if !dstAddr.IP.IsValid() {
@@ -67,7 +72,9 @@ func (h *Handler6) spoofLoop(dstAddr packet.Addr) {
 		Logger6.Msg("NA attack start").Struct(dstAddr).Time("time", startTime).Write()
 	}
 	for {
+		verifGate("check", lid)
 		h.Lock()
+		verifCheck(h, lid, dstAddr)
 
 		if h.huntList.Index(dstAddr.MAC) == -1 || h.closed {
 			h.Unlock()
@@ -83,6 +90,7 @@ func (h *Handler6) spoofLoop(dstAddr packet.Addr) {
 			}
 
 			h.Unlock()
+			verifGate("act", lid)
 
 			for _, routerAddr := range list {
 				hostAddr := packet.Addr{MAC: h.session.NICInfo.HostAddr4.MAC, IP: h.session.NICInfo.HostLLA.Addr()}
@@ -135,6 +143,9 @@ func (h *Handler6) spoofLoop(dstAddr packet.Addr) {
 			// For example:
 			//   Tplink home router sends RA every 3 seconds and we wakeup immediately after to
 			//   send a spoofed NA. In turn, the target keep routing to us :-).
+
+		case <-verifWake(lid):
+			// verification harness: injected end of the sleep (nil channel in normal builds)
 
 		case <-time.After(time.Millisecond*2000 + time.Duration(rand.Int31n(800))):
 			// 2 second spoof seem to be adequate to keep cache poisoned
